@@ -76,6 +76,19 @@ Theorem C16_carv1_complete_at_every_moment :
 Proof. exact v1_always_wellformed. Qed.
 Print Assumptions C16_carv1_complete_at_every_moment.
 
+(* ... in particular after every Put / PutMany that returned success. *)
+Theorem C16_carv1_complete_after_successful_put :
+  forall (hdrdec : bytes -> option (list bytes * N)) kn o nilroots roots faults pre op s0 sn tr,
+    base_fits o -> hdr_ok nilroots roots ->
+    forallb (op_okb kn) (pre ++ [op]) = true -> ops_small (pre ++ [op]) ->
+    open_new (kind_of kn) o nilroots roots faults = Ok s0 ->
+    frun hdrdec kn s0 (pre ++ [op]) = (sn, tr) ->
+    w_v1 o = true -> (exists c d, op = FPut c d) \/ (exists bs, op = FPutMany bs) ->
+    snd (last tr (s0, ONil)) = ONil ->
+    wf_final (ws_file sn) = Some (roots, acked o nilroots roots (pre ++ [op]) (map obs_of tr)).
+Proof. exact v1_complete_after_successful_put. Qed.
+Print Assumptions C16_carv1_complete_after_successful_put.
+
 (* (e) Why the fix was needed: with the Put of the unchanged code (put_one_v0: the writer stays where
    the failing call left it) a CID write that fails after the length varint got out is followed by
    a successful Put and a successful Finalize, and the finished file does not parse.  The witness
